@@ -233,8 +233,8 @@ func vSanitize(s string) string {
 	return s
 }
 
-// vClassify maps an error of the dial path to the model's error classes.
-func vClassify(err error) (class string, timeout bool) {
+// vdClassify maps an error of the dial path to the model's error classes.
+func vdClassify(err error) (class string, timeout bool) {
 	if err == nil {
 		return "-", false
 	}
@@ -877,7 +877,7 @@ loop:
 	vShimCh = nil
 
 	// the select choice of a wake item that ended in the select itself is read off the result
-	class, tmo := vClassify(res.err)
+	class, tmo := vdClassify(res.err)
 	if curWake != nil {
 		switch {
 		case strings.HasPrefix(class, "ctx:"):
@@ -970,7 +970,7 @@ func vParseKV(toks []string) map[string]string {
 	return m
 }
 
-func vParseScript(line string) []*vAttRec {
+func vdParseScript(line string) []*vAttRec {
 	var atts []*vAttRec
 	secs := strings.Split(line, "::")
 	for _, s := range secs[1:] {
@@ -1254,7 +1254,7 @@ func (e *vRealEnv) oneDial(q vRealReq, network, addr string, tag uint32) (o vDia
 		c, err = DialConnection(network, addr, time.Duration(q.timeoutUs)*time.Microsecond)
 	}
 	o.elapsed = time.Since(t0)
-	o.class, o.timeout = vClassify(err)
+	o.class, o.timeout = vdClassify(err)
 	o.usable = "-"
 	if cc, ok := vConnParts(c); ok {
 		o.conn = c
@@ -1606,7 +1606,7 @@ func vScriptedMain(seed int64, n int, opsOut, implOut, replay string) int {
 			for try := 0; try < 40; try++ {
 				hd := vParseKV(strings.Fields(strings.SplitN(l, "::", 2)[0]))
 				regErr, _ := strconv.Atoi(hd["reg"])
-				op, impl = vRunScripted(&vScriptChooser{atts: vParseScript(l), regErr: regErr}, id)
+				op, impl = vRunScripted(&vScriptChooser{atts: vdParseScript(l), regErr: regErr}, id)
 				got := strings.SplitN(op, " :: ", 2)
 				if len(want) == 2 && len(got) == 2 && vStripFds(want[1]) == vStripFds(got[1]) {
 					break
